@@ -162,6 +162,13 @@ func init() {
 					if len(held) > 0 && r.Intn(3) == 0 {
 						release()
 					}
+					if sched && r.Intn(30) == 0 {
+						// a CONNECT that violates the protocol: MQTT 3.x, zero-length client id, Clean Session 0
+						// (must be refused; never yields a session)
+						emit(fmt.Sprintf("bk.conn %d %d 0 -", next, pick(r, []int{3, 4, 4})))
+						next++
+						continue
+					}
 					c, ok := anyOpen()
 					if !ok || r.Intn(9) == 0 {
 						connect()
